@@ -134,6 +134,7 @@ class Verifier:
         self.call_feas = {}
         self.known = {}
         self.lemmas_used = set()
+        self.escape_checked = set()
         self.relativised = set()
         self.ext_timeout_s = 30
         self.tmpdir = None
@@ -200,6 +201,79 @@ class Verifier:
                     if isinstance(n, ast.ClassDef):
                         self._cls_index.setdefault(n.name, []).append(rel)
         return self._cls_index.get(cls, [])
+
+    # ---- syntactic closure for typestate-carrying objects (DESIGN.md 1.5 (C)) ----------------------
+    def defs_named(self, name):
+        if not hasattr(self, "_defs_by_name"):
+            self._defs_by_name = {}
+            for f in glob.glob(os.path.join(self.root, "dulwich", "**", "*.py"), recursive=True):
+                if "/tests/" in f:
+                    continue
+                try:
+                    tree = ast.parse(open(f, "rb").read())
+                except SyntaxError:
+                    continue
+                rel = os.path.relpath(f, self.root)
+                for n in ast.walk(tree):
+                    if isinstance(n, ast.ClassDef):
+                        for m in n.body:
+                            if isinstance(m, ast.FunctionDef):
+                                self._defs_by_name.setdefault(m.name, []).append((rel, n.name, m))
+                                if m.name == "__init__":
+                                    self._defs_by_name.setdefault(n.name, []).append((rel, n.name, m))
+                for n in tree.body:
+                    if isinstance(n, ast.FunctionDef):
+                        self._defs_by_name.setdefault(n.name, []).append((rel, None, n))
+        return self._defs_by_name.get(name, [])
+
+    def callee_may_touch(self, name, positions, kwnames, mutators, depth=0, seen=None):
+        """Does any definition called `name` close/abort/store/forward the argument(s) at the given
+        positional indexes / keyword names?  Purely syntactic, by name, over dulwich/**."""
+        seen = seen if seen is not None else set()
+        key = (name, tuple(positions), tuple(kwnames))
+        if key in seen or depth > 3:
+            return None
+        seen.add(key)
+        for rel, cls, fn in self.defs_named(name):
+            a = fn.args
+            params = [p.arg for p in a.posonlyargs + a.args]
+            if cls is not None and params and params[0] in ("self", "cls"):
+                params = params[1:]
+            names = set()
+            for i in positions:
+                if i < len(params):
+                    names.add(params[i])
+                elif a.vararg:
+                    names.add(a.vararg.arg)
+            for k in kwnames:
+                if k in params or k in [p.arg for p in a.kwonlyargs]:
+                    names.add(k)
+            if not names:
+                continue
+            for n in ast.walk(fn):
+                if isinstance(n, ast.Call) and isinstance(n.func, ast.Attribute) and isinstance(n.func.value, ast.Name) and n.func.value.id in names:
+                    if n.func.attr in mutators:
+                        return f"{rel}:{(cls + '.') if cls else ''}{fn.name} calls .{n.func.attr}() on the handle"
+                if isinstance(n, ast.With):
+                    for it in n.items:
+                        if isinstance(it.context_expr, ast.Name) and it.context_expr.id in names:
+                            return f"{rel}:{fn.name} uses the handle as a context manager"
+                if isinstance(n, ast.Assign) and isinstance(n.value, ast.Name) and n.value.id in names:
+                    for t in n.targets:
+                        if isinstance(t, (ast.Attribute, ast.Subscript)):
+                            return f"{rel}:{(cls + '.') if cls else ''}{fn.name} stores the handle ({ast.unparse(t)})"
+                if isinstance(n, ast.Return) and isinstance(n.value, ast.Name) and n.value.id in names:
+                    pass
+                if isinstance(n, ast.Call):
+                    pos = [i for i, x in enumerate(n.args) if isinstance(x, ast.Name) and x.id in names]
+                    kws = [k.arg for k in n.keywords if isinstance(k.value, ast.Name) and k.value.id in names and k.arg]
+                    if pos or kws:
+                        cn = n.func.attr if isinstance(n.func, ast.Attribute) else (n.func.id if isinstance(n.func, ast.Name) else None)
+                        if cn and cn not in ("isinstance", "len", "print", "repr", "str", "id", "type", "hasattr", "getattr"):
+                            r = self.callee_may_touch(cn, pos, kws, mutators, depth + 1, seen)
+                            if r:
+                                return r
+        return None
 
     def has_method(self, cls, name):
         return self.find_method_def(cls, name) is not None
@@ -411,6 +485,11 @@ class Verifier:
                     val = frame.env["__yielded__"]
                 env["result"] = val
                 self.check_result_type(eng, con, val)
+                for path, ex in con.assigns.items():
+                    from .models import compare as _cmp
+                    a = eng.eval_spec(path, frame, extra=env)
+                    b = eng.eval_spec(ex, frame, extra=env)
+                    eng.prove(f"{pfx}:assigns:{path}", _cmp(eng, ast.Is(), a, b, fn), "post", fn, detail=f"{path} is {ex}", frame=frame, extra=env)
                 for j, p in enumerate(con.ensures):
                     eng.prove(f"{pfx}:post#{j + 1}", eng.eval_goal(p, frame, extra=env), "post", fn, detail=p, frame=frame, extra=env)
             else:
@@ -463,12 +542,10 @@ class Verifier:
                 continue
             owns = o.fields.get("owns")
             if owns is not None:
-                eng.prove(f"{pfx}:lock-released@{kind}", z3.Not(owns.t), "ghost-post", fn,
-                          detail=f"lock taken in this call is released on every {kind} exit", assume_after=False)
-            com = o.fields.get("committed")
-            if kind == "raised" and com is not None:
-                eng.prove(f"{pfx}:lock-aborted@raised", z3.Not(com.t), "ghost-post", fn,
-                          detail="a failing writer never commits (replaces the protected file)", assume_after=False)
+                stuck = o.fields.get("stuck")
+                goal = z3.Not(owns.t) if stuck is None else z3.Or(z3.Not(owns.t), stuck.t)
+                eng.prove(f"{pfx}:lock-released@{kind}", goal, "ghost-post", fn,
+                          detail=f"lock taken in this call is released on every {kind} exit (unless the OS refused to remove the lock file)", assume_after=False)
 
     def check_frame(self, eng, con, fn):
         """Frame condition: everything reachable from the parameters at entry that the contract
